@@ -115,6 +115,9 @@ def _validate(d, harness, behs, name):
     for t in tags:
         li = t["l"] - 1
         t["behaviour"] = behs[bidx[li]]
+        if lines[li]["ev"] == "reset":
+            # a tag on the reset line: the base state the code built differs from the model's (STRICT_base_*)
+            lines[li]["a"] = dict(behs[bidx[li]][0]["a"], e="reset")
         t["world"] = lines[li]["a"]["base"] + "/" + lines[li]["a"]["chain"]
         t["cell"] = lines[li]["a"]
         t["observed"] = {k: lines[li].get(k) for k in ("ev", "a", "ok", "out", "code", "err", "panic", "changed", "fee")}
